@@ -15,6 +15,7 @@ type c04Case struct {
 	C, P, S, L int    // root of P frames; buffer under test = root.Slice(S, S+L); Direct: Alloc(C,L,P) itself (S=0)
 	Direct     bool
 	N          int // number of AppendSample calls
+	Sparse     bool // long buffers: full comparison every 97 calls (and at the end), cheap comparison otherwise
 }
 
 func c04Run(cs c04Case) (fs []F) {
@@ -52,6 +53,20 @@ func c04Run(cs c04Case) (fs []F) {
 			m.n++
 		}
 		tok = tk(tok + 1)
+		if cs.Sparse && k%97 != 0 && k != cs.N && k != cap0-cs.C*cs.L {
+			// cheap step check: shape, the cell just written and the cell after it
+			if h, w := hdr(b), m.header(); h != w {
+				fail("view", "after call %d: shape %+v, model %+v", k, h, w)
+				return
+			}
+			if m.n > 0 {
+				if g := b.Sample(m.n - 1).Tok(); g != m.get(m.n-1) {
+					fail("view", "after call %d: sample %d reads %d, model %d", k, m.n-1, g, m.get(m.n-1))
+					return
+				}
+			}
+			continue
+		}
 		if d := cmpView(b, m); d != "" {
 			fail("view", "after call %d: %s", k, d)
 			return
@@ -100,6 +115,14 @@ func init() {
 					}
 				}
 			}
+			for _, t := range []int{dyn.Int8, dyn.Float64, dyn.Uint32} { // long buffers, thousands of calls
+				for C := 1; C <= 3; C++ {
+					cases = append(cases, c04Case{Type: tn(t), C: C, P: 1500, S: 0, L: 0, N: C*1500 + 300, Sparse: true})
+					cases = append(cases, c04Case{Type: tn(t), C: C, P: 1500, S: 700, L: 100, N: C*700 + 300, Sparse: true})
+				}
+				cases = append(cases, c04Case{Type: tn(t), C: 9, P: 8, S: 1, L: 1, N: 9*6 + 40})
+				cases = append(cases, c04Case{Type: tn(t), C: 65, P: 3, S: 0, L: 1, N: 65*2 + 40})
+			}
 			var calls int64
 			for _, cs := range cases {
 				calls += int64(cs.N)
@@ -118,7 +141,7 @@ func init() {
 			c.Set("evaluations", calls)
 			c.Sample(cases[57])
 			c.Sample(cases[len(cases)-1])
-			c.Set("rule", fmt.Sprintf("13 element types x C in 1..4 x storage of P in 0..4 frames x window start S x initial length L (windows of a larger buffer, and direct Alloc(C,L,P)); each history is spare capacity + %d AppendSample calls, checked after every call against the views model (state = Len; transition = one call); non-trivial = has spare capacity; plus storages of 16 and 100 frames for 4 element types", extra))
+			c.Set("rule", fmt.Sprintf("13 element types x C in 1..4 x storage of P in 0..4 frames x window start S x initial length L (windows of a larger buffer, and direct Alloc(C,L,P)); each history is spare capacity + %d AppendSample calls, checked after every call against the views model (state = Len; transition = one call); non-trivial = has spare capacity; plus storages of 16 and 100 frames for 4 element types, 1500-frame storages (thousands of calls, full comparison every 97th call) and 9- and 65-channel buffers for 3 types", extra))
 			c.Assume("storage identity is observed by aliasing (a full-capacity view taken before the first call and the root buffer), not by address")
 		},
 		RunCase: func(c *core.Ctx, raw json.RawMessage) []F { return c04Run(decode[c04Case](raw)) },
